@@ -397,7 +397,7 @@ def main():
   rep.coverage["ref_columns_checked"] = len(ref_columns())
   from checks import C02
   C02.tune_explore(4)
-  explore.explore(rep, "checks.C09", "C09Monitor", n_quick=112, budget_quick_s=22)
+  explore.explore(rep, "checks.C09", "C09Monitor", n_quick=160, budget_quick_s=30)
   return rep.finish()
 
 
